@@ -255,7 +255,7 @@ def run_driver(driver: str, lines):
 # --------------------------------------------------------------------------------------
 
 def worker(args):
-    modname, tier, seed, shard, nshards, have_driver = args
+    modname, tier, seed, shard, nshards, have_driver, known = args
     mod = importlib.import_module(modname)
     rng = random.Random(seed * 7919 + shard)
     cases = list(mod.gen(tier, rng, shard, nshards))
@@ -287,7 +287,19 @@ def worker(args):
         elif (mo is not None and io_ != mo) or bad_oracle:
             diffs.append({"stream": s, "line": l, "impl": io_, "model": mo, "oracle_failed": bad_oracle})
     stats["distinct_nontrivial"] = list(stats["distinct_nontrivial"])
-    return stats, diffs[:200]
+    # keep a few representatives per known finding so that they cannot crowd other disagreements out of the cap
+    match_known = getattr(mod, "known", None)
+    kept, per_known = [], {}
+    for d in diffs:
+        kid = d.get("known_id") or (match_known(d["stream"], d["line"], known) if match_known else None)
+        if kid:
+            d["known_id"] = kid
+            per_known[kid] = per_known.get(kid, 0) + 1
+            if per_known[kid] > 3:
+                continue
+        kept.append(d)
+    stats["diffs_total"] = len(diffs)
+    return stats, kept[:300]
 
 
 def shrink_diff(mod, d, have_driver):
@@ -362,7 +374,7 @@ def main():
     have_driver = lean["driver_ok"]
     try:
         with mp.Pool(jobs) as pool:
-            results = pool.map(worker, [(modname, search_tier, seed, i, jobs, have_driver) for i in range(jobs)])
+            results = pool.map(worker, [(modname, search_tier, seed, i, jobs, have_driver, known) for i in range(jobs)])
     except Exception:  # noqa: BLE001
         traceback.print_exc()
         print("correspondence harness failed (machinery error)")
@@ -401,7 +413,7 @@ def main():
     known_hit, violations, corr_only = {}, [], []
     match_known = getattr(mod, "known", None)
     for d in diffs:
-        kid = match_known(d["stream"], d["line"], known) if match_known else None
+        kid = d.get("known_id") or (match_known(d["stream"], d["line"], known) if match_known else None)
         if kid:
             known_hit.setdefault(kid, d)
             continue
